@@ -71,13 +71,17 @@ namespace simalloc
         State &s = st();
         if (!p)
         {
-            if (bytes) kit::violate(std::string(who) + "/deallocate-null", "deallocate(nullptr, %zu)", bytes);
+            if (bytes) kit::defer_violation(std::string(who) + "/deallocate-null", "deallocate(nullptr, %zu)", bytes);
             return;
         }
         auto it = s.live.find(p);
-        if (it == s.live.end()) kit::violate(std::string(who) + "/deallocate-unknown", "deallocate of a block that is not live (double free or foreign pointer)");
+        if (it == s.live.end())
+        {
+            kit::defer_violation(std::string(who) + "/deallocate-unknown", "deallocate of a block that is not live (double free or foreign pointer)");
+            return;
+        }
         if (it->second != bytes)
-            kit::violate(std::string(who) + "/deallocate-size", "deallocate(p, %zu bytes) of a block allocated with %zu bytes", bytes, it->second);
+            kit::defer_violation(std::string(who) + "/deallocate-size", "deallocate(p, %zu bytes) of a block allocated with %zu bytes", bytes, it->second);
         s.live.erase(it);
         s.frees++;
         if (s.reuse) s.parked.emplace(bytes, p); // content left as is: a dangling reader sees stale data, a new owner sees the fill
